@@ -158,7 +158,8 @@ static void run_script(const Script& S, std::mt19937& g, std::vector<double>& lo
 				break;
 			}
 			case 7: {
-				auto v = Sample_Metropolis(g, [](double x) { return std::exp(-0.5 * x * x); }, 1.0 + b, 5, 3, 7, c < 0.5 ? std::vector<double> {} : std::vector<double> {-3.0, 3.0});
+				// (burn-in 7..10: chains with an odd and with an even number of steps)
+				auto v = Sample_Metropolis(g, [](double x) { return std::exp(-0.5 * x * x); }, 1.0 + b, 5, 3, 7 + (unsigned) (c * 4), c < 0.5 ? std::vector<double> {} : std::vector<double> {-3.0, 3.0});
 				for(double x : v)
 					log.push_back(x);
 				break;
@@ -221,6 +222,32 @@ static void case_reproducible(Rng& rng, uint64_t index)
 			all_discrete_small = false;
 	if(!all_discrete_small)
 		require("output-depends-on-the-generator-state", differs, [&] { return J().vec("log", l1); });
+	// one sampler call from equal generator states after two different histories of OTHER sampler calls (on other generators): "consumes randomness
+	// only from the generator passed to it".  Replaying a whole script from its start cannot see state that one sampler leaves behind for another
+	// (seeded change C18-r6m2: a normal distribution object shared by the two Metropolis samplers kept its spare variate).
+	{
+		Script F, B;
+		F.ops.push_back(index % 3 == 0 ? 8 : rng.irange(0, 8));
+		F.par = {rng.uni(-5, 5), rng.uni(0.1, 3), rng.u01()};
+		int nb = rng.irange(1, 6);
+		for(int i = 0; i < nb; i++)
+		{
+			B.ops.push_back(rng.coin(0.4) ? 7 : rng.irange(0, 8));
+			B.par.push_back(rng.uni(-5, 5)), B.par.push_back(rng.uni(0.1, 3)), B.par.push_back(rng.u01());
+		}
+		uint32_t sf = (uint32_t) rng.next();
+		std::mt19937 h1(sf), h2(sf), other((uint32_t) rng.next());
+		std::vector<double> f1, f2, lb;
+		bool a1, a2, ab;
+		run_script(F, h1, f1, a1);
+		run_script(B, other, lb, ab);
+		run_script(F, h2, f2, a2);
+		bool eq = f1.size() == f2.size() && h1 == h2;
+		for(size_t i = 0; eq && i < f1.size(); i++)
+			eq = same_bits(f1[i], f2[i]);
+		std::vector<double> bops(B.ops.begin(), B.ops.end());
+		require("output-independent-of-other-sampler-calls-on-other-generators", eq, [&] { return J().i("observed_op", F.ops[0]).vec("ops_in_between", bops).vec("first_output", f1).vec("second_output", f2); });
+	}
 	if(index % 997 == 0)
 		sample(J().i("log_length", (long long) l1.size()));
 }
